@@ -348,6 +348,9 @@ func (n *RegexNode) finalOptimize() *RegexNode {
 			} else if node.N == math.MaxInt32 &&
 				((node.T == NtOneloop || node.T == NtOneloopatomic || node.T == NtNotoneloop || node.T == NtNotoneloopatomic || node.T == NtSetloop || node.T == NtSetloopatomic) ||
 					((node.T == NtOnelazy || node.T == NtNotonelazy || node.T == NtSetlazy) && !atomicByAncestry)) {
+				if verifGate(4) {
+					break
+				}
 
 				if node.Parent != nil && node.Parent.T == NtConcatenate {
 					node.Parent.Children = slices.Insert(node.Parent.Children, 1, &RegexNode{T: NtUpdateBumpalong, Options: node.Options, Parent: node.Parent})
@@ -370,6 +373,9 @@ func (n *RegexNode) finalOptimize() *RegexNode {
 // to {one/notone/set}loopatomic nodes.  Such changes avoid potential useless backtracking.
 // e.g. A*B (where sets A and B don't overlap) => (?>A*)B.
 func (n *RegexNode) findAndMakeLoopsAtomic() {
+	if verifGate(1) {
+		return
+	}
 	if n.Options&RightToLeft != 0 {
 		// RTL is so rare, we don't need to spend additional time/code optimizing for it.
 		return
@@ -598,6 +604,10 @@ func (n *RegexNode) reduceAtomic() *RegexNode {
 	// iff they're atomic.
 	case NtAlternate:
 		if (n.Options & RightToLeft) == 0 {
+			if verifGate(8) {
+				child.eliminateEndingBacktracking()
+				return atomic
+			}
 			branches := child.Children
 
 			// If an alternation is atomic and its first branch is Empty, the whole thing
@@ -734,6 +744,9 @@ func (n *RegexNode) makeLoopAtomic() {
 // the provided node.  That means it must be at the root of the overall expression, or
 // it must be an Atomic node that nothing will backtrack into by the very nature of Atomic.
 func (n *RegexNode) eliminateEndingBacktracking() {
+	if verifGate(2) {
+		return
+	}
 	// Walk the tree starting from the current node.
 	node := n
 	for {
@@ -1051,6 +1064,9 @@ func (n *RegexNode) reduceAlternation() *RegexNode {
 // if we end up backtracking into subsequent branches.
 // e.g. abc|ade => a(?bc|de)
 func (n *RegexNode) extractCommonPrefixText() *RegexNode {
+	if verifGate(16) {
+		return n
+	}
 	// To keep things relatively simple, we currently only handle:
 	// - Left to right (e.g. we don't process alternations in lookbehinds)
 	// - Branches that are one or multi nodes, or that are concatenations beginning with one or multi nodes.
@@ -1166,6 +1182,9 @@ func (n *RegexNode) extractCommonPrefixText() *RegexNode {
 // the same across multiple contiguous branches.
 // e.g. \w12|\d34|\d56|\w78|\w90 => \w12|\d(?:34|56)|\w(?:78|90)
 func (n *RegexNode) extractCommonPrefixOneNotoneSet() *RegexNode {
+	if verifGate(16) {
+		return n
+	}
 	// Only process left-to-right prefixes.
 	if (n.Options & RightToLeft) != 0 {
 		return n
